@@ -23,6 +23,8 @@ pub assume_specification<T, A: std::alloc::Allocator> [Vec::<T, A>::capacity] (v
 pub struct Error { _p: u8 }
 pub type Result<T> = core::result::Result<T, Error>;
 #[verifier::external_body]
+pub fn verif_error() -> Error { unimplemented!() }
+#[verifier::external_body]
 pub struct String { _p: u8 }
 impl String {
     pub uninterp spec fn bytes(&self) -> Seq<u8>;
@@ -191,12 +193,17 @@ impl FixedStruct {
     pub uninterp spec fn dt_spec(&self) -> DateTimeL;
     /// R(m): the text the record renders into a buffer of `buflen` bytes (cut short if it does not fit)
     pub uninterp spec fn render(&self, buflen: int) -> Seq<u8>;
+    /// the range of R(m) that holds the record's own datetime text (highlighted in colour output)
+    pub uninterp spec fn hl_beg(&self, buflen: int) -> usize;
+    pub uninterp spec fn hl_end(&self, buflen: int) -> usize;
     #[verifier::external_body]
     pub fn as_bytes(&self, buffer: &mut [u8]) -> (r: InfoAsBytes)
         ensures
             final(buffer)@.len() == old(buffer)@.len(),
             self.render(old(buffer)@.len() as int).len() <= old(buffer)@.len(),
-            r is Ok ==> r->Ok_0 as int == self.render(old(buffer)@.len() as int).len(),
+            r is Ok ==> r->Ok_0 as int == self.render(old(buffer)@.len() as int).len()
+                && r->Ok_1 == self.hl_beg(old(buffer)@.len() as int) && r->Ok_2 == self.hl_end(old(buffer)@.len() as int)
+                && r->Ok_1 <= r->Ok_2 <= r->Ok_0,
             r is Fail ==> r->Fail_0 as int == self.render(old(buffer)@.len() as int).len(),
             final(buffer)@.subrange(0, self.render(old(buffer)@.len() as int).len() as int) == self.render(old(buffer)@.len() as int),
     { unimplemented!() }
@@ -459,6 +466,30 @@ pub proof fn lemma_part_is_subrange(s: Seq<LinePart>, k: int)
     assert(s[k].bytes() =~= a1.subrange(a.len() as int, a1.len() as int));
     assert(a1.subrange(a.len() as int, a1.len() as int) =~= b.subrange(a.len() as int, a1.len() as int));
 }
+
+/// C13 colour: coloured payload of a text message.  Per line: prefix in the default colour, then the line's bytes --
+/// first line with its datetime range highlighted, continuation lines in one colour `c_cont`
+pub open spec fn cline(pre: Seq<u8>, c_def: int, b: Seq<u8>, first: bool, dt_beg: int, dt_end: int, c_sys: int, c_dt: int, c_cont: int) -> Seq<(u8, int)> {
+    paint(pre, c_def) + (if first { paint_hl(b, dt_beg, dt_end, c_sys, c_dt) } else { paint(b, c_cont) })
+}
+pub open spec fn clines(pre: Seq<u8>, c_def: int, ls: Seq<LineP>, dt_beg: int, dt_end: int, c_sys: int, c_dt: int, c_cont: int) -> Seq<(u8, int)>
+    decreases ls.len()
+{
+    if ls.len() == 0 { Seq::<(u8, int)>::empty() }
+    else { clines(pre, c_def, ls.drop_last(), dt_beg, dt_end, c_sys, c_dt, c_cont) + cline(pre, c_def, parts_bytes(ls.last().lineparts@), ls.len() == 1, dt_beg, dt_end, c_sys, c_dt, c_cont) }
+}
+pub proof fn lemma_clines_prefix(pre: Seq<u8>, c_def: int, ls: Seq<LineP>, k: int, dt_beg: int, dt_end: int, c_sys: int, c_dt: int, c_cont: int)
+    requires 0 <= k < ls.len()
+    ensures clines(pre, c_def, ls.take(k + 1), dt_beg, dt_end, c_sys, c_dt, c_cont)
+        == clines(pre, c_def, ls.take(k), dt_beg, dt_end, c_sys, c_dt, c_cont) + cline(pre, c_def, parts_bytes(ls[k].lineparts@), k == 0, dt_beg, dt_end, c_sys, c_dt, c_cont)
+{
+    assert(ls.take(k + 1).drop_last() =~= ls.take(k));
+    assert(ls.take(k + 1).last() == ls[k]);
+}
+/// lines as the readers build them: every part holds at least one byte
+pub open spec fn parts_nonempty(ls: Seq<LineP>) -> bool {
+    forall|i: int, j: int| 0 <= i < ls.len() && 0 <= j < ls[i].lineparts@.len() ==> (#[trigger] ls[i].lineparts@[j]).bytes().len() > 0
+}
 impl PrinterLogMessage {
     /// printer invariant for colour output: color_spec_last mirrors the colour active on the stream
     pub open spec fn col_ok(&self) -> bool { cid(self.color_spec_last) == self.stdout_color.cur() }
@@ -469,34 +500,35 @@ impl PrinterLogMessage {
 }
 
 //@macrofn path=src/printer/printers.rs name=print_color_line_highlight_dt may_return=1 rlimit=400
-//@params self:mut:PrinterLogMessage buffer:alias:self.buffer linep:val:&LineP dt_beg:val:LineIndex dt_end:val:LineIndex printed:mut:usize flushed:mut:usize
+//@params self:fields:stdout_color=mut=StandardStream,color_spec_sysline=ref=ColorSpec,color_spec_datetime=ref=ColorSpec,color_spec_last=mut=ColorSpec buffer:mut:Vec<u8> linep:val:&LineP dt_beg:val:LineIndex dt_end:val:LineIndex printed:mut:usize flushed:mut:usize
 //@desugar_for 1 it
 //@spec
     requires
-        old(self_).col_ok(), old(self_).buffer@.len() == 0,
+        cid(*old(self___color_spec_last)) == old(self___stdout_color).cur(), old(buffer)@.len() == 0,
         dt_beg <= dt_end,
         forall|i: int| 0 <= i < linep.lineparts@.len() ==> (#[trigger] linep.lineparts@[i]).bytes().len() > 0,
         *old(printed) + parts_bytes(linep.lineparts@).len() <= usize::MAX,
         *old(flushed) + linep.lineparts@.len() * 15 + 2 < usize::MAX,
     ensures
-        final(self_).same_config(old(self_)), final(self_).same_colors(old(self_)),
         *final(flushed) <= *old(flushed) + linep.lineparts@.len() * 15, *final(flushed) >= *old(flushed),
-        r is Ok ==> final(self_).col_ok() && final(self_).buffer@.len() == 0,
+        r is Ok ==> cid(*final(self___color_spec_last)) == final(self___stdout_color).cur() && final(buffer)@.len() == 0,
         // C13 / C12: payload = the line's bytes; the datetime range, and only it, is highlighted -- whatever the part boundaries
-        r is Ok ==> final(self_).stdout_color.cview() == old(self_).stdout_color.cview()
-            + paint_hl(parts_bytes(linep.lineparts@), dt_beg as int, dt_end as int, cid(old(self_).color_spec_sysline), cid(old(self_).color_spec_datetime)),
+        r is Ok ==> final(self___stdout_color).cview() == old(self___stdout_color).cview()
+            + paint_hl(parts_bytes(linep.lineparts@), dt_beg as int, dt_end as int, cid(*self___color_spec_sysline), cid(*self___color_spec_datetime)),
         r is Ok ==> *final(printed) == *old(printed) + parts_bytes(linep.lineparts@).len(),
+        // the colour left active is that of the line's last byte
+        r is Ok ==> final(self___stdout_color).cur() == (if parts_bytes(linep.lineparts@).len() > 0 { hl_col(parts_bytes(linep.lineparts@).len() - 1, dt_beg as int, dt_end as int, cid(*self___color_spec_sysline), cid(*self___color_spec_datetime)) } else { old(self___stdout_color).cur() }),
 //@at_entry
     proof { lemma_paint_concat_auto(); }
-    let ghost cv0 = self_.stdout_color.cview();
-    let ghost v0 = self_.stdout_color.view();
+    let ghost cv0 = self___stdout_color.cview();
+    let ghost v0 = self___stdout_color.view();
     let ghost bb = parts_bytes(linep.lineparts@);
-    let ghost c_sys = cid(self_.color_spec_sysline);
-    let ghost c_dt = cid(self_.color_spec_datetime);
+    let ghost c_sys = cid(*self___color_spec_sysline);
+    let ghost c_dt = cid(*self___color_spec_datetime);
     let ghost hl = paint_hl(bb, dt_beg as int, dt_end as int, c_sys, c_dt);
     let ghost p0 = *printed;
     let ghost f0 = *flushed;
-    let ghost self0 = *self_;
+    let ghost cur0 = self___stdout_color.cur();
 //@loop 1
         invariant_except_break
             vstd::std_specs::iter::IteratorSpec::decrease(&it.iter) is Some,
@@ -506,14 +538,15 @@ impl PrinterLogMessage {
             forall|i: int| 0 <= i < linep.lineparts@.len() ==> *it.seq()[i] == linep.lineparts@[i],
             forall|i: int| 0 <= i < linep.lineparts@.len() ==> (#[trigger] linep.lineparts@[i]).bytes().len() > 0,
             0 <= it.index@ <= it.seq().len(),
-            self_.same_config(&self0), self_.same_colors(&self0), self0 == *old(self_), f0 == *old(flushed),
-            c_sys == cid(self_.color_spec_sysline), c_dt == cid(self_.color_spec_datetime),
+            f0 == *old(flushed),
+            c_sys == cid(*self___color_spec_sysline), c_dt == cid(*self___color_spec_datetime),
             bb == parts_bytes(linep.lineparts@), hl == paint_hl(bb, dt_beg as int, dt_end as int, c_sys, c_dt), dt_beg <= dt_end,
             p0 + bb.len() <= usize::MAX, f0 + linep.lineparts@.len() * 15 + 2 < usize::MAX,
-            self_.col_ok(), self_.buffer@.len() == 0,
+            cid(*self___color_spec_last) == self___stdout_color.cur(), buffer@.len() == 0,
             at as int == parts_bytes(linep.lineparts@.take(it.index@ as int)).len(), at as int <= bb.len(),
-            self_.stdout_color.cview() == cv0 + hl.take(at as int),
+            self___stdout_color.cview() == cv0 + hl.take(at as int),
             *printed == p0 + at, at as int <= bb.len(),
+            self___stdout_color.cur() == (if at > 0 { hl_col(at as int - 1, dt_beg as int, dt_end as int, c_sys, c_dt) } else { cur0 }), cur0 == old(self___stdout_color).cur(),
             f0 <= *flushed <= f0 + it.index@ * 15,
         ensures
             it.index@ == it.seq().len(),
@@ -528,94 +561,103 @@ impl PrinterLogMessage {
                 assert(slice@ == bb.subrange(at as int, at_end_g));
             }
 //@before "match setcolor_or_return__fn(" 1
-                    proof { lemma_streams_empty(&self_.stdout_color, self_.buffer@); }
+                    proof { lemma_streams_empty(&*self___stdout_color, buffer@); }
 //@after "match buffer_flush_or_return__fn(" 1
                     proof {
-                        lemma_streams_empty(&self_.stdout_color, self_.buffer@);
+                        lemma_streams_empty(&*self___stdout_color, buffer@);
                         assert(slice_a@ =~= bb.subrange(at as int, dt_beg as int));
                         lemma_hl_piece(cv0, v0, bb, at as int, dt_beg as int, c_sys, dt_beg as int, dt_end as int, c_sys, c_dt);
-                        assert(self_.stdout_color.cview() == cv0 + hl.take(dt_beg as int));
+                        assert(self___stdout_color.cview() == cv0 + hl.take(dt_beg as int));
                         assert(*printed == p0 + dt_beg as int);
+                        assert(self___stdout_color.cur() == hl_col(dt_beg as int - 1, dt_beg as int, dt_end as int, c_sys, c_dt));
                     }
 //@before "match setcolor_or_return__fn(" 2
-                    proof { lemma_streams_empty(&self_.stdout_color, self_.buffer@); }
+                    proof { lemma_streams_empty(&*self___stdout_color, buffer@); }
 //@after "match buffer_flush_or_return__fn(" 2
                     proof {
-                        lemma_streams_empty(&self_.stdout_color, self_.buffer@);
+                        lemma_streams_empty(&*self___stdout_color, buffer@);
                         assert(slice_b_dt@ =~= bb.subrange(dt_beg as int, dt_end as int));
                         lemma_hl_piece(cv0, v0, bb, dt_beg as int, dt_end as int, c_dt, dt_beg as int, dt_end as int, c_sys, c_dt);
-                        assert(self_.stdout_color.cview() == cv0 + hl.take(dt_end as int));
+                        assert(self___stdout_color.cview() == cv0 + hl.take(dt_end as int));
                         assert(*printed == p0 + dt_end as int);
+                        assert(self___stdout_color.cur() == hl_col(dt_end as int - 1, dt_beg as int, dt_end as int, c_sys, c_dt));
                     }
 //@before "match setcolor_or_return__fn(" 3
-                    proof { lemma_streams_empty(&self_.stdout_color, self_.buffer@); }
+                    proof { lemma_streams_empty(&*self___stdout_color, buffer@); }
 //@after "match buffer_flush_or_return__fn(" 3
                     proof {
-                        lemma_streams_empty(&self_.stdout_color, self_.buffer@);
+                        lemma_streams_empty(&*self___stdout_color, buffer@);
                         assert(slice_c@ =~= bb.subrange(dt_end as int, at_end_g));
                         lemma_hl_piece(cv0, v0, bb, dt_end as int, at_end_g, c_sys, dt_beg as int, dt_end as int, c_sys, c_dt);
-                        assert(self_.stdout_color.cview() == cv0 + hl.take(at_end_g));
+                        assert(self___stdout_color.cview() == cv0 + hl.take(at_end_g));
                         assert(*printed == p0 + at_end_g);
+                        assert(self___stdout_color.cur() == hl_col(at_end_g - 1, dt_beg as int, dt_end as int, c_sys, c_dt));
                     }
 //@before "match setcolor_or_return__fn(" 4
-                    proof { lemma_streams_empty(&self_.stdout_color, self_.buffer@); }
+                    proof { lemma_streams_empty(&*self___stdout_color, buffer@); }
 //@after "match buffer_flush_or_return__fn(" 4
                     proof {
-                        lemma_streams_empty(&self_.stdout_color, self_.buffer@);
+                        lemma_streams_empty(&*self___stdout_color, buffer@);
                         assert(slice_a@ =~= bb.subrange(at as int, dt_beg as int));
                         lemma_hl_piece(cv0, v0, bb, at as int, dt_beg as int, c_sys, dt_beg as int, dt_end as int, c_sys, c_dt);
-                        assert(self_.stdout_color.cview() == cv0 + hl.take(dt_beg as int));
+                        assert(self___stdout_color.cview() == cv0 + hl.take(dt_beg as int));
                         assert(*printed == p0 + dt_beg as int);
+                        assert(self___stdout_color.cur() == hl_col(dt_beg as int - 1, dt_beg as int, dt_end as int, c_sys, c_dt));
                     }
 //@before "match setcolor_or_return__fn(" 5
-                    proof { lemma_streams_empty(&self_.stdout_color, self_.buffer@); }
+                    proof { lemma_streams_empty(&*self___stdout_color, buffer@); }
 //@after "match buffer_flush_or_return__fn(" 5
                     proof {
-                        lemma_streams_empty(&self_.stdout_color, self_.buffer@);
+                        lemma_streams_empty(&*self___stdout_color, buffer@);
                         assert(slice_b_dt@ =~= bb.subrange(dt_beg as int, at_end_g));
                         lemma_hl_piece(cv0, v0, bb, dt_beg as int, at_end_g, c_dt, dt_beg as int, dt_end as int, c_sys, c_dt);
-                        assert(self_.stdout_color.cview() == cv0 + hl.take(at_end_g));
+                        assert(self___stdout_color.cview() == cv0 + hl.take(at_end_g));
                         assert(*printed == p0 + at_end_g);
+                        assert(self___stdout_color.cur() == hl_col(at_end_g - 1, dt_beg as int, dt_end as int, c_sys, c_dt));
                     }
 //@before "match setcolor_or_return__fn(" 6
-                    proof { lemma_streams_empty(&self_.stdout_color, self_.buffer@); }
+                    proof { lemma_streams_empty(&*self___stdout_color, buffer@); }
 //@after "match buffer_flush_or_return__fn(" 6
                     proof {
-                        lemma_streams_empty(&self_.stdout_color, self_.buffer@);
+                        lemma_streams_empty(&*self___stdout_color, buffer@);
                         assert(slice_a_dt@ =~= bb.subrange(at as int, dt_end as int));
                         lemma_hl_piece(cv0, v0, bb, at as int, dt_end as int, c_dt, dt_beg as int, dt_end as int, c_sys, c_dt);
-                        assert(self_.stdout_color.cview() == cv0 + hl.take(dt_end as int));
+                        assert(self___stdout_color.cview() == cv0 + hl.take(dt_end as int));
                         assert(*printed == p0 + dt_end as int);
+                        assert(self___stdout_color.cur() == hl_col(dt_end as int - 1, dt_beg as int, dt_end as int, c_sys, c_dt));
                     }
 //@before "match setcolor_or_return__fn(" 7
-                    proof { lemma_streams_empty(&self_.stdout_color, self_.buffer@); }
+                    proof { lemma_streams_empty(&*self___stdout_color, buffer@); }
 //@after "match buffer_flush_or_return__fn(" 7
                     proof {
-                        lemma_streams_empty(&self_.stdout_color, self_.buffer@);
+                        lemma_streams_empty(&*self___stdout_color, buffer@);
                         assert(slice_b@ =~= bb.subrange(dt_end as int, at_end_g));
                         lemma_hl_piece(cv0, v0, bb, dt_end as int, at_end_g, c_sys, dt_beg as int, dt_end as int, c_sys, c_dt);
-                        assert(self_.stdout_color.cview() == cv0 + hl.take(at_end_g));
+                        assert(self___stdout_color.cview() == cv0 + hl.take(at_end_g));
                         assert(*printed == p0 + at_end_g);
+                        assert(self___stdout_color.cur() == hl_col(at_end_g - 1, dt_beg as int, dt_end as int, c_sys, c_dt));
                     }
 //@before "match setcolor_or_return__fn(" 8
-                    proof { lemma_streams_empty(&self_.stdout_color, self_.buffer@); }
+                    proof { lemma_streams_empty(&*self___stdout_color, buffer@); }
 //@after "match buffer_flush_or_return__fn(" 8
                     proof {
-                        lemma_streams_empty(&self_.stdout_color, self_.buffer@);
+                        lemma_streams_empty(&*self___stdout_color, buffer@);
                         assert(slice@ =~= bb.subrange(at as int, at_end_g));
                         lemma_hl_piece(cv0, v0, bb, at as int, at_end_g, c_dt, dt_beg as int, dt_end as int, c_sys, c_dt);
-                        assert(self_.stdout_color.cview() == cv0 + hl.take(at_end_g));
+                        assert(self___stdout_color.cview() == cv0 + hl.take(at_end_g));
                         assert(*printed == p0 + at_end_g);
+                        assert(self___stdout_color.cur() == hl_col(at_end_g - 1, dt_beg as int, dt_end as int, c_sys, c_dt));
                     }
 //@before "match setcolor_or_return__fn(" 9
-                    proof { lemma_streams_empty(&self_.stdout_color, self_.buffer@); }
+                    proof { lemma_streams_empty(&*self___stdout_color, buffer@); }
 //@after "match buffer_flush_or_return__fn(" 9
                     proof {
-                        lemma_streams_empty(&self_.stdout_color, self_.buffer@);
+                        lemma_streams_empty(&*self___stdout_color, buffer@);
                         assert(slice@ =~= bb.subrange(at as int, at_end_g));
                         lemma_hl_piece(cv0, v0, bb, at as int, at_end_g, c_sys, dt_beg as int, dt_end as int, c_sys, c_dt);
-                        assert(self_.stdout_color.cview() == cv0 + hl.take(at_end_g));
+                        assert(self___stdout_color.cview() == cv0 + hl.take(at_end_g));
                         assert(*printed == p0 + at_end_g);
+                        assert(self___stdout_color.cur() == hl_col(at_end_g - 1, dt_beg as int, dt_end as int, c_sys, c_dt));
                     }
 //@before "let mut it = vstd"
     proof { lemma_hl_whole(cv0, v0, bb, dt_beg as int, dt_end as int, c_sys, c_dt); assert(linep.lineparts@.take(0) =~= Seq::<LinePart>::empty()); }
@@ -651,7 +693,7 @@ impl PrinterLogMessage {
         old(self).buffer@.len() + parts_bytes(linep.lineparts@).len() <= usize::MAX,
         linep.lineparts@.len() * 2 + 2 < usize::MAX,
     ensures
-        final(self).same_config(old(self)),
+        final(self).same_config(old(self)), final(self).same_color_state(old(self)),
         final(self).buffer@.len() <= usize::MAX,
         // the logical stream grows by exactly the bytes of the line, in part order; the count is what reached the handle
         r is Ok ==> final(stdout_lock).view() + final(self).buffer@ == old(stdout_lock).view() + old(self).buffer@ + parts_bytes(linep.lineparts@),
@@ -669,7 +711,7 @@ impl PrinterLogMessage {
                 it.seq().len() == linep.lineparts@.len(),
                 forall|i: int| 0 <= i < linep.lineparts@.len() ==> *it.seq()[i] == linep.lineparts@[i],
                 0 <= it.index@ <= it.seq().len(),
-                self.same_config(old(self)),
+                self.same_config(old(self)), self.same_color_state(old(self)),
                 b0.len() + parts_bytes(linep.lineparts@).len() <= usize::MAX, linep.lineparts@.len() * 2 + 2 < usize::MAX,
                 stdout_lock.view() + self.buffer@ == v0 + b0 + parts_bytes(linep.lineparts@.take(it.index@ as int)),
                 printed as int == stdout_lock.view().len() - v0.len(), stdout_lock.view().len() >= v0.len(),
@@ -708,7 +750,7 @@ impl PrinterLogMessage {
         lines_payload(old(self).sys_prefix(syslinep, false, false), syslinep.lines@).len() <= usize::MAX,
         total_parts(syslinep.lines@) * 2 + 4 < usize::MAX,
     ensures
-        final(self).same_config(old(self)),
+        final(self).same_config(old(self)), final(self).same_color_state(old(self)),
         r is Ok ==> final(self).buffer@.len() == 0,
         // C19: the count returned is the number of payload bytes written
         r is Ok ==> r->Ok_0.0 as int == lines_payload(old(self).sys_prefix(syslinep, false, false), syslinep.lines@).len(),
@@ -720,7 +762,7 @@ impl PrinterLogMessage {
                 it.seq().len() == syslinep.lines@.len(),
                 forall|i: int| 0 <= i < syslinep.lines@.len() ==> *it.seq()[i] == syslinep.lines@[i],
                 0 <= it.index@ <= it.seq().len(),
-                self.same_config(old(self)), self.buffer@.len() <= usize::MAX,
+                self.same_config(old(self)), self.same_color_state(old(self)), self.buffer@.len() <= usize::MAX,
                 
                 lines_payload(self.sys_prefix(syslinep, false, false), syslinep.lines@).len() <= usize::MAX, total_parts(syslinep.lines@) * 2 + 4 < usize::MAX,
                 stdout_lock.view() + self.buffer@ == lines_payload(self.sys_prefix(syslinep, false, false), syslinep.lines@.take(it.index@ as int)),
@@ -769,7 +811,7 @@ impl PrinterLogMessage {
         lines_payload(old(self).sys_prefix(syslinep, false, true), syslinep.lines@).len() <= usize::MAX,
         total_parts(syslinep.lines@) * 2 + 4 < usize::MAX,
     ensures
-        final(self).same_config(old(self)),
+        final(self).same_config(old(self)), final(self).same_color_state(old(self)),
         r is Ok ==> final(self).buffer@.len() == 0,
         // C19: the count returned is the number of payload bytes written
         r is Ok ==> r->Ok_0.0 as int == lines_payload(old(self).sys_prefix(syslinep, false, true), syslinep.lines@).len(),
@@ -781,7 +823,7 @@ impl PrinterLogMessage {
                 it.seq().len() == syslinep.lines@.len(),
                 forall|i: int| 0 <= i < syslinep.lines@.len() ==> *it.seq()[i] == syslinep.lines@[i],
                 0 <= it.index@ <= it.seq().len(),
-                self.same_config(old(self)), self.buffer@.len() <= usize::MAX,
+                self.same_config(old(self)), self.same_color_state(old(self)), self.buffer@.len() <= usize::MAX,
                 dtb@ == dt_text(self.prepend_date_format.bytes(), syslinep.dt),
                 lines_payload(self.sys_prefix(syslinep, false, true), syslinep.lines@).len() <= usize::MAX, total_parts(syslinep.lines@) * 2 + 4 < usize::MAX,
                 stdout_lock.view() + self.buffer@ == lines_payload(self.sys_prefix(syslinep, false, true), syslinep.lines@.take(it.index@ as int)),
@@ -829,7 +871,7 @@ impl PrinterLogMessage {
         lines_payload(old(self).sys_prefix(syslinep, true, false), syslinep.lines@).len() <= usize::MAX,
         total_parts(syslinep.lines@) * 2 + 4 < usize::MAX,
     ensures
-        final(self).same_config(old(self)),
+        final(self).same_config(old(self)), final(self).same_color_state(old(self)),
         r is Ok ==> final(self).buffer@.len() == 0,
         // C19: the count returned is the number of payload bytes written
         r is Ok ==> r->Ok_0.0 as int == lines_payload(old(self).sys_prefix(syslinep, true, false), syslinep.lines@).len(),
@@ -841,7 +883,7 @@ impl PrinterLogMessage {
                 it.seq().len() == syslinep.lines@.len(),
                 forall|i: int| 0 <= i < syslinep.lines@.len() ==> *it.seq()[i] == syslinep.lines@[i],
                 0 <= it.index@ <= it.seq().len(),
-                self.same_config(old(self)), self.buffer@.len() <= usize::MAX, self.prepend_file is Some,
+                self.same_config(old(self)), self.same_color_state(old(self)), self.buffer@.len() <= usize::MAX, self.prepend_file is Some,
                 
                 lines_payload(self.sys_prefix(syslinep, true, false), syslinep.lines@).len() <= usize::MAX, total_parts(syslinep.lines@) * 2 + 4 < usize::MAX,
                 stdout_lock.view() + self.buffer@ == lines_payload(self.sys_prefix(syslinep, true, false), syslinep.lines@.take(it.index@ as int)),
@@ -890,7 +932,7 @@ impl PrinterLogMessage {
         lines_payload(old(self).sys_prefix(syslinep, true, true), syslinep.lines@).len() <= usize::MAX,
         total_parts(syslinep.lines@) * 2 + 4 < usize::MAX,
     ensures
-        final(self).same_config(old(self)),
+        final(self).same_config(old(self)), final(self).same_color_state(old(self)),
         r is Ok ==> final(self).buffer@.len() == 0,
         // C19: the count returned is the number of payload bytes written
         r is Ok ==> r->Ok_0.0 as int == lines_payload(old(self).sys_prefix(syslinep, true, true), syslinep.lines@).len(),
@@ -902,7 +944,7 @@ impl PrinterLogMessage {
                 it.seq().len() == syslinep.lines@.len(),
                 forall|i: int| 0 <= i < syslinep.lines@.len() ==> *it.seq()[i] == syslinep.lines@[i],
                 0 <= it.index@ <= it.seq().len(),
-                self.same_config(old(self)), self.buffer@.len() <= usize::MAX, self.prepend_file is Some,
+                self.same_config(old(self)), self.same_color_state(old(self)), self.buffer@.len() <= usize::MAX, self.prepend_file is Some,
                 dtb@ == dt_text(self.prepend_date_format.bytes(), syslinep.dt),
                 lines_payload(self.sys_prefix(syslinep, true, true), syslinep.lines@).len() <= usize::MAX, total_parts(syslinep.lines@) * 2 + 4 < usize::MAX,
                 stdout_lock.view() + self.buffer@ == lines_payload(self.sys_prefix(syslinep, true, true), syslinep.lines@.take(it.index@ as int)),
@@ -954,6 +996,10 @@ impl PrinterLogMessage {
         + (if with_date { dt_text(self.prepend_date_format.bytes(), m.dt_spec()) } else { Seq::<u8>::empty() })
         + m.render(buflen)
     }
+    /// the colour state is untouched (non-colour printers)
+    pub open spec fn same_color_state(&self, o: &Self) -> bool {
+        self.stdout_color == o.stdout_color && self.color_spec_last == o.color_spec_last && self.same_colors(o)
+    }
     pub open spec fn same_config(&self, o: &Self) -> bool {
         self.prepend_file == o.prepend_file && self.prepend_date_format == o.prepend_date_format
         && self.do_color == o.do_color && self.do_prepend_file == o.do_prepend_file && self.do_prepend_date == o.do_prepend_date
@@ -963,7 +1009,7 @@ impl PrinterLogMessage {
 //@spec
     requires old(self).buffer@.len() == 0
     ensures
-        final(self).same_config(old(self)),
+        final(self).same_config(old(self)), final(self).same_color_state(old(self)),
         r is Ok ==> final(self).buffer@.len() == 0,
         // C19: the count returned is the number of payload bytes written
         r is Ok ==> r->Ok_0.0 as int == old(self).fx_payload(fixedstruct, old(buffer)@.len() as int, false, false).len(),
@@ -981,7 +1027,7 @@ impl PrinterLogMessage {
         old(self).prepend_date_format.bytes().len() > 0,
         old(self).fx_payload(fixedstruct, old(buffer)@.len() as int, false, true).len() <= usize::MAX,
     ensures
-        final(self).same_config(old(self)),
+        final(self).same_config(old(self)), final(self).same_color_state(old(self)),
         r is Ok ==> final(self).buffer@.len() == 0,
         r is Ok ==> r->Ok_0.0 as int == old(self).fx_payload(fixedstruct, old(buffer)@.len() as int, false, true).len(),
 //@before_tail
@@ -997,7 +1043,7 @@ impl PrinterLogMessage {
         old(self).prepend_file is Some,
         old(self).fx_payload(fixedstruct, old(buffer)@.len() as int, true, false).len() <= usize::MAX,
     ensures
-        final(self).same_config(old(self)),
+        final(self).same_config(old(self)), final(self).same_color_state(old(self)),
         r is Ok ==> final(self).buffer@.len() == 0,
         r is Ok ==> r->Ok_0.0 as int == old(self).fx_payload(fixedstruct, old(buffer)@.len() as int, true, false).len(),
 //@before_tail
@@ -1014,7 +1060,7 @@ impl PrinterLogMessage {
         old(self).prepend_date_format.bytes().len() > 0,
         old(self).fx_payload(fixedstruct, old(buffer)@.len() as int, true, true).len() <= usize::MAX,
     ensures
-        final(self).same_config(old(self)),
+        final(self).same_config(old(self)), final(self).same_color_state(old(self)),
         r is Ok ==> final(self).buffer@.len() == 0,
         r is Ok ==> r->Ok_0.0 as int == old(self).fx_payload(fixedstruct, old(buffer)@.len() as int, true, true).len(),
 //@before_tail
@@ -1030,57 +1076,624 @@ impl PrinterLogMessage {
         &&& self.do_prepend_file == (self.prepend_file is Some)
         &&& self.do_prepend_date == (self.prepend_date_format.bytes().len() > 0)
         &&& self.buffer@.len() == 0
+        &&& self.col_ok()
     }
 
     // ---- assumed until brought under contract: the colour variants write the same payload (C13 "pure decoration")
     // and return its length; only escape sequences are added.  Listed in the evidence as assumptions.
-    #[verifier::external_body]
-    fn print_sysline_color(&mut self, syslinep: &SyslineP) -> (r: PrinterLogMessageResult)
-        ensures final(self).same_config(old(self)), r is Ok ==> final(self).buffer@.len() == 0,
-            r is Ok ==> r->Ok_0.0 as int == lines_payload(old(self).sys_prefix(syslinep, false, false), syslinep.lines@).len()
-    { unimplemented!() }
-    #[verifier::external_body]
-    fn print_sysline_prependfile_color(&mut self, syslinep: &SyslineP) -> (r: PrinterLogMessageResult)
-        ensures final(self).same_config(old(self)), r is Ok ==> final(self).buffer@.len() == 0,
-            r is Ok ==> r->Ok_0.0 as int == lines_payload(old(self).sys_prefix(syslinep, true, false), syslinep.lines@).len()
-    { unimplemented!() }
-    #[verifier::external_body]
-    fn print_sysline_prependdate_color(&mut self, syslinep: &SyslineP) -> (r: PrinterLogMessageResult)
-        ensures final(self).same_config(old(self)), r is Ok ==> final(self).buffer@.len() == 0,
-            r is Ok ==> r->Ok_0.0 as int == lines_payload(old(self).sys_prefix(syslinep, false, true), syslinep.lines@).len()
-    { unimplemented!() }
-    #[verifier::external_body]
-    fn print_sysline_prependfile_prependdate_color(&mut self, syslinep: &SyslineP) -> (r: PrinterLogMessageResult)
-        ensures final(self).same_config(old(self)), r is Ok ==> final(self).buffer@.len() == 0,
-            r is Ok ==> r->Ok_0.0 as int == lines_payload(old(self).sys_prefix(syslinep, true, true), syslinep.lines@).len()
-    { unimplemented!() }
-    #[verifier::external_body]
-    fn print_fixedstruct_color(&mut self, fixedstruct: &FixedStruct, buffer: &mut [u8]) -> (r: PrinterLogMessageResult)
-        ensures final(self).same_config(old(self)), r is Ok ==> final(self).buffer@.len() == 0,
-            r is Ok ==> r->Ok_0.0 as int == old(self).fx_payload(fixedstruct, old(buffer)@.len() as int, false, false).len()
-    { unimplemented!() }
-    #[verifier::external_body]
-    fn print_fixedstruct_prependfile_color(&mut self, fixedstruct: &FixedStruct, buffer: &mut [u8]) -> (r: PrinterLogMessageResult)
-        ensures final(self).same_config(old(self)), r is Ok ==> final(self).buffer@.len() == 0,
-            r is Ok ==> r->Ok_0.0 as int == old(self).fx_payload(fixedstruct, old(buffer)@.len() as int, true, false).len()
-    { unimplemented!() }
-    #[verifier::external_body]
-    fn print_fixedstruct_prependdate_color(&mut self, fixedstruct: &FixedStruct, buffer: &mut [u8]) -> (r: PrinterLogMessageResult)
-        ensures final(self).same_config(old(self)), r is Ok ==> final(self).buffer@.len() == 0,
-            r is Ok ==> r->Ok_0.0 as int == old(self).fx_payload(fixedstruct, old(buffer)@.len() as int, false, true).len()
-    { unimplemented!() }
-    #[verifier::external_body]
-    fn print_fixedstruct_prependfile_prependdate_color(&mut self, fixedstruct: &FixedStruct, buffer: &mut [u8]) -> (r: PrinterLogMessageResult)
-        ensures final(self).same_config(old(self)), r is Ok ==> final(self).buffer@.len() == 0,
-            r is Ok ==> r->Ok_0.0 as int == old(self).fx_payload(fixedstruct, old(buffer)@.len() as int, true, true).len()
-    { unimplemented!() }
+
+//@cut fn path=src/printer/printers.rs impl=PrinterLogMessage name=print_sysline_color ret=r rlimit=200
+//@desugar_for 1 it
+//@spec
+    requires
+        old(self).buffer@.len() == 0,
+        old(self).col_ok(),
+        syslinep.dt_beg <= syslinep.dt_end,
+        parts_nonempty(syslinep.lines@),
+        lines_payload(old(self).sys_prefix(syslinep, false, false), syslinep.lines@).len() <= usize::MAX,
+        total_parts(syslinep.lines@) * 15 + 16 < usize::MAX,
+    ensures
+        final(self).same_config(old(self)), final(self).same_colors(old(self)),
+        r is Ok ==> final(self).buffer@.len() == 0 && final(self).col_ok() && final(self).stdout_color.cur() == cid(old(self).color_spec_default),
+        // C13: the payload bytes are those of the non-colour variant; per line [file][date] in the default colour, then the
+        // line with (first line only) its datetime range highlighted -- a function of the message, not of block boundaries (C12)
+        r is Ok ==> final(self).stdout_color.cview() == old(self).stdout_color.cview()
+            + clines((Seq::<u8>::empty() + Seq::<u8>::empty()), cid(old(self).color_spec_default), syslinep.lines@, syslinep.dt_beg as int, syslinep.dt_end as int,
+                     cid(old(self).color_spec_sysline), cid(old(self).color_spec_datetime), (if syslinep.lines@.len() > 0 && parts_bytes(syslinep.lines@[0].lineparts@).len() > 0 { hl_col(parts_bytes(syslinep.lines@[0].lineparts@).len() - 1, syslinep.dt_beg as int, syslinep.dt_end as int, cid(old(self).color_spec_sysline), cid(old(self).color_spec_datetime)) } else { cid(old(self).color_spec_sysline) })),
+        // C19: the count returned is the number of payload bytes written
+        r is Ok ==> r->Ok_0.0 as int == lines_payload(old(self).sys_prefix(syslinep, false, false), syslinep.lines@).len(),
+//@at_entry
+    let ghost cv0 = self.stdout_color.cview();
+    let ghost c_def = cid(self.color_spec_default);
+    let ghost c_sys = cid(self.color_spec_sysline);
+    let ghost c_dt = cid(self.color_spec_datetime);
+    let ghost dtb_i = syslinep.dt_beg as int;
+    let ghost dte_i = syslinep.dt_end as int;
+    let ghost self0 = *self;
+    proof { lemma_streams_empty(&self.stdout_color, self.buffer@); }
+    let ghost c_cont = (if syslinep.lines@.len() > 0 && parts_bytes(syslinep.lines@[0].lineparts@).len() > 0 { hl_col(parts_bytes(syslinep.lines@[0].lineparts@).len() - 1, dtb_i, dte_i, c_sys, c_dt) } else { c_sys });
+//@before "let mut it = vstd"
+    let ghost pre = (Seq::<u8>::empty() + Seq::<u8>::empty());
+    proof { lemma_streams_empty(&self.stdout_color, self.buffer@); assert(syslinep.lines@.take(0) =~= Seq::<LineP>::empty()); assert(cv0 + Seq::<(u8, int)>::empty() =~= cv0); }
+//@loop 1
+            invariant_except_break
+                vstd::std_specs::iter::IteratorSpec::decrease(&it.iter) is Some,
+            invariant
+                it.snapshot@ == it__snap0, it.wf(),
+                it.seq().len() == syslinep.lines@.len(),
+                forall|i: int| 0 <= i < syslinep.lines@.len() ==> *it.seq()[i] == syslinep.lines@[i],
+                0 <= it.index@ <= it.seq().len(),
+                parts_nonempty(syslinep.lines@), syslinep.dt_beg <= syslinep.dt_end, dtb_i == syslinep.dt_beg as int, dte_i == syslinep.dt_end as int,
+                self.same_config(&self0), self.same_colors(&self0), self0 == *old(self),
+                c_def == cid(self.color_spec_default), c_sys == cid(self.color_spec_sysline), c_dt == cid(self.color_spec_datetime),
+                c_cont == (if syslinep.lines@.len() > 0 && parts_bytes(syslinep.lines@[0].lineparts@).len() > 0 { hl_col(parts_bytes(syslinep.lines@[0].lineparts@).len() - 1, dtb_i, dte_i, c_sys, c_dt) } else { c_sys }),
+                pre == (Seq::<u8>::empty() + Seq::<u8>::empty()),
+                lines_payload(self.sys_prefix(syslinep, false, false), syslinep.lines@).len() <= usize::MAX, total_parts(syslinep.lines@) * 15 + 16 < usize::MAX,
+                self.col_ok(), self.buffer@.len() == 0,
+                line_first == (it.index@ == 0),
+                self.stdout_color.cur() == (if it.index@ == 0 { c_sys } else { c_cont }),
+                self.stdout_color.cview() == cv0 + clines(pre, c_def, syslinep.lines@.take(it.index@ as int), dtb_i, dte_i, c_sys, c_dt, c_cont),
+                printed as int == lines_payload(self.sys_prefix(syslinep, false, false), syslinep.lines@.take(it.index@ as int)).len(),
+                flushed as int <= 15 * total_parts(syslinep.lines@.take(it.index@ as int)) + 2,
+            ensures
+                it.index@ == it.seq().len(),
+            decreases vstd::std_specs::iter::IteratorSpec::decrease(&it.iter).unwrap_or(arbitrary()),
+//@after "let mut it = vstd"
+            let ghost k = it__old.index@ as int;
+            let ghost base = clines(pre, c_def, syslinep.lines@.take(k), dtb_i, dte_i, c_sys, c_dt, c_cont);
+            proof {
+                lemma_clines_prefix(pre, c_def, syslinep.lines@, k, dtb_i, dte_i, c_sys, c_dt, c_cont);
+                lemma_lines_prefix(self.sys_prefix(syslinep, false, false), syslinep.lines@, k);
+                lemma_total_nonneg(syslinep.lines@.take(k));
+                lemma_streams_empty(&self.stdout_color, self.buffer@); lemma_paint_concat_auto();
+                assert(self.sys_prefix(syslinep, false, false) =~= pre);
+                assert(pre =~= Seq::<u8>::empty());
+            }
+//@before "match setcolor_or_return__fn(&mut self.stdout_color, &mut self.buffer, &self.color_spec_default" 1
+    proof {
+        assert(syslinep.lines@.take(syslinep.lines@.len() as int) =~= syslinep.lines@);
+        lemma_streams_empty(&self.stdout_color, self.buffer@);
+    }
+//@before "black_box(&stdout_lock);"
+    proof { lemma_streams_empty(&self.stdout_color, self.buffer@); }
+//@end
+
+//@cut fn path=src/printer/printers.rs impl=PrinterLogMessage name=print_sysline_prependdate_color ret=r rlimit=200
+//@desugar_for 1 it
+//@spec
+    requires
+        old(self).buffer@.len() == 0,
+        old(self).col_ok(),
+        syslinep.dt_beg <= syslinep.dt_end,
+        parts_nonempty(syslinep.lines@),
+        lines_payload(old(self).sys_prefix(syslinep, false, true), syslinep.lines@).len() <= usize::MAX,
+        total_parts(syslinep.lines@) * 15 + 16 < usize::MAX,
+    ensures
+        final(self).same_config(old(self)), final(self).same_colors(old(self)),
+        r is Ok ==> final(self).buffer@.len() == 0 && final(self).col_ok() && final(self).stdout_color.cur() == cid(old(self).color_spec_default),
+        // C13: the payload bytes are those of the non-colour variant; per line [file][date] in the default colour, then the
+        // line with (first line only) its datetime range highlighted -- a function of the message, not of block boundaries (C12)
+        r is Ok ==> final(self).stdout_color.cview() == old(self).stdout_color.cview()
+            + clines((Seq::<u8>::empty() + dt_text(old(self).prepend_date_format.bytes(), syslinep.dt)), cid(old(self).color_spec_default), syslinep.lines@, syslinep.dt_beg as int, syslinep.dt_end as int,
+                     cid(old(self).color_spec_sysline), cid(old(self).color_spec_datetime), cid(old(self).color_spec_sysline)),
+        // C19: the count returned is the number of payload bytes written
+        r is Ok ==> r->Ok_0.0 as int == lines_payload(old(self).sys_prefix(syslinep, false, true), syslinep.lines@).len(),
+//@at_entry
+    let ghost cv0 = self.stdout_color.cview();
+    let ghost c_def = cid(self.color_spec_default);
+    let ghost c_sys = cid(self.color_spec_sysline);
+    let ghost c_dt = cid(self.color_spec_datetime);
+    let ghost dtb_i = syslinep.dt_beg as int;
+    let ghost dte_i = syslinep.dt_end as int;
+    let ghost self0 = *self;
+    proof { lemma_streams_empty(&self.stdout_color, self.buffer@); }
+    let ghost c_cont = c_sys;
+//@before "let mut it = vstd"
+    let ghost pre = (Seq::<u8>::empty() + dt_text(self.prepend_date_format.bytes(), syslinep.dt));
+    proof { lemma_streams_empty(&self.stdout_color, self.buffer@); assert(syslinep.lines@.take(0) =~= Seq::<LineP>::empty()); assert(cv0 + Seq::<(u8, int)>::empty() =~= cv0); }
+//@loop 1
+            invariant_except_break
+                vstd::std_specs::iter::IteratorSpec::decrease(&it.iter) is Some,
+            invariant
+                it.snapshot@ == it__snap0, it.wf(),
+                it.seq().len() == syslinep.lines@.len(),
+                forall|i: int| 0 <= i < syslinep.lines@.len() ==> *it.seq()[i] == syslinep.lines@[i],
+                0 <= it.index@ <= it.seq().len(),
+                parts_nonempty(syslinep.lines@), syslinep.dt_beg <= syslinep.dt_end, dtb_i == syslinep.dt_beg as int, dte_i == syslinep.dt_end as int,
+                self.same_config(&self0), self.same_colors(&self0), self0 == *old(self),
+                c_def == cid(self.color_spec_default), c_sys == cid(self.color_spec_sysline), c_dt == cid(self.color_spec_datetime),
+                c_cont == c_sys,
+                pre == (Seq::<u8>::empty() + dt_text(self.prepend_date_format.bytes(), syslinep.dt)),
+                dtb@ == dt_text(self.prepend_date_format.bytes(), syslinep.dt),
+                lines_payload(self.sys_prefix(syslinep, false, true), syslinep.lines@).len() <= usize::MAX, total_parts(syslinep.lines@) * 15 + 16 < usize::MAX,
+                self.col_ok(), self.buffer@.len() == 0,
+                line_first == (it.index@ == 0),
+                
+                self.stdout_color.cview() == cv0 + clines(pre, c_def, syslinep.lines@.take(it.index@ as int), dtb_i, dte_i, c_sys, c_dt, c_cont),
+                printed as int == lines_payload(self.sys_prefix(syslinep, false, true), syslinep.lines@.take(it.index@ as int)).len(),
+                flushed as int <= 15 * total_parts(syslinep.lines@.take(it.index@ as int)) + 2,
+            ensures
+                it.index@ == it.seq().len(),
+            decreases vstd::std_specs::iter::IteratorSpec::decrease(&it.iter).unwrap_or(arbitrary()),
+//@after "let mut it = vstd"
+            let ghost k = it__old.index@ as int;
+            let ghost base = clines(pre, c_def, syslinep.lines@.take(k), dtb_i, dte_i, c_sys, c_dt, c_cont);
+            proof {
+                lemma_clines_prefix(pre, c_def, syslinep.lines@, k, dtb_i, dte_i, c_sys, c_dt, c_cont);
+                lemma_lines_prefix(self.sys_prefix(syslinep, false, true), syslinep.lines@, k);
+                lemma_total_nonneg(syslinep.lines@.take(k));
+                lemma_streams_empty(&self.stdout_color, self.buffer@); lemma_paint_concat_auto();
+                assert(self.sys_prefix(syslinep, false, true) =~= pre);
+            }
+//@after "match buffer_flush_or_return__fn(" 1
+            proof {
+                lemma_streams_empty(&self.stdout_color, self.buffer@);
+                assert(self.stdout_color.cview() == cv0 + base + paint(pre, c_def));
+            }
+//@before "if line_first"
+            proof { lemma_streams_empty(&self.stdout_color, self.buffer@); assert(self.stdout_color.cur() == c_sys); }
+//@before "match setcolor_or_return__fn(&mut self.stdout_color, &mut self.buffer, &self.color_spec_default" 2
+    proof {
+        assert(syslinep.lines@.take(syslinep.lines@.len() as int) =~= syslinep.lines@);
+        lemma_streams_empty(&self.stdout_color, self.buffer@);
+    }
+//@before "black_box(&stdout_lock);"
+    proof { lemma_streams_empty(&self.stdout_color, self.buffer@); }
+//@end
+
+//@cut fn path=src/printer/printers.rs impl=PrinterLogMessage name=print_sysline_prependfile_color ret=r rlimit=200
+//@desugar_for 1 it
+//@spec
+    requires
+        old(self).buffer@.len() == 0,
+        old(self).col_ok(),
+        syslinep.dt_beg <= syslinep.dt_end,
+        parts_nonempty(syslinep.lines@),
+        old(self).prepend_file is Some,
+        lines_payload(old(self).sys_prefix(syslinep, true, false), syslinep.lines@).len() <= usize::MAX,
+        total_parts(syslinep.lines@) * 15 + 16 < usize::MAX,
+    ensures
+        final(self).same_config(old(self)), final(self).same_colors(old(self)),
+        r is Ok ==> final(self).buffer@.len() == 0 && final(self).col_ok() && final(self).stdout_color.cur() == cid(old(self).color_spec_default),
+        // C13: the payload bytes are those of the non-colour variant; per line [file][date] in the default colour, then the
+        // line with (first line only) its datetime range highlighted -- a function of the message, not of block boundaries (C12)
+        r is Ok ==> final(self).stdout_color.cview() == old(self).stdout_color.cview()
+            + clines((old(self).pf() + Seq::<u8>::empty()), cid(old(self).color_spec_default), syslinep.lines@, syslinep.dt_beg as int, syslinep.dt_end as int,
+                     cid(old(self).color_spec_sysline), cid(old(self).color_spec_datetime), cid(old(self).color_spec_sysline)),
+        // C19: the count returned is the number of payload bytes written
+        r is Ok ==> r->Ok_0.0 as int == lines_payload(old(self).sys_prefix(syslinep, true, false), syslinep.lines@).len(),
+//@at_entry
+    let ghost cv0 = self.stdout_color.cview();
+    let ghost c_def = cid(self.color_spec_default);
+    let ghost c_sys = cid(self.color_spec_sysline);
+    let ghost c_dt = cid(self.color_spec_datetime);
+    let ghost dtb_i = syslinep.dt_beg as int;
+    let ghost dte_i = syslinep.dt_end as int;
+    let ghost self0 = *self;
+    proof { lemma_streams_empty(&self.stdout_color, self.buffer@); }
+    let ghost c_cont = c_sys;
+//@before "let mut it = vstd"
+    let ghost pre = (self.pf() + Seq::<u8>::empty());
+    proof { lemma_streams_empty(&self.stdout_color, self.buffer@); assert(syslinep.lines@.take(0) =~= Seq::<LineP>::empty()); assert(cv0 + Seq::<(u8, int)>::empty() =~= cv0); }
+//@loop 1
+            invariant_except_break
+                vstd::std_specs::iter::IteratorSpec::decrease(&it.iter) is Some,
+            invariant
+                it.snapshot@ == it__snap0, it.wf(),
+                it.seq().len() == syslinep.lines@.len(),
+                forall|i: int| 0 <= i < syslinep.lines@.len() ==> *it.seq()[i] == syslinep.lines@[i],
+                0 <= it.index@ <= it.seq().len(),
+                parts_nonempty(syslinep.lines@), syslinep.dt_beg <= syslinep.dt_end, dtb_i == syslinep.dt_beg as int, dte_i == syslinep.dt_end as int,
+                self.same_config(&self0), self.same_colors(&self0), self0 == *old(self),
+                c_def == cid(self.color_spec_default), c_sys == cid(self.color_spec_sysline), c_dt == cid(self.color_spec_datetime),
+                c_cont == c_sys,
+                pre == (self.pf() + Seq::<u8>::empty()),
+                prepend_file@ == self.pf(), self.prepend_file is Some,
+                lines_payload(self.sys_prefix(syslinep, true, false), syslinep.lines@).len() <= usize::MAX, total_parts(syslinep.lines@) * 15 + 16 < usize::MAX,
+                self.col_ok(), self.buffer@.len() == 0,
+                line_first == (it.index@ == 0),
+                
+                self.stdout_color.cview() == cv0 + clines(pre, c_def, syslinep.lines@.take(it.index@ as int), dtb_i, dte_i, c_sys, c_dt, c_cont),
+                printed as int == lines_payload(self.sys_prefix(syslinep, true, false), syslinep.lines@.take(it.index@ as int)).len(),
+                flushed as int <= 15 * total_parts(syslinep.lines@.take(it.index@ as int)) + 2,
+            ensures
+                it.index@ == it.seq().len(),
+            decreases vstd::std_specs::iter::IteratorSpec::decrease(&it.iter).unwrap_or(arbitrary()),
+//@after "let mut it = vstd"
+            let ghost k = it__old.index@ as int;
+            let ghost base = clines(pre, c_def, syslinep.lines@.take(k), dtb_i, dte_i, c_sys, c_dt, c_cont);
+            proof {
+                lemma_clines_prefix(pre, c_def, syslinep.lines@, k, dtb_i, dte_i, c_sys, c_dt, c_cont);
+                lemma_lines_prefix(self.sys_prefix(syslinep, true, false), syslinep.lines@, k);
+                lemma_total_nonneg(syslinep.lines@.take(k));
+                lemma_streams_empty(&self.stdout_color, self.buffer@); lemma_paint_concat_auto();
+                assert(self.sys_prefix(syslinep, true, false) =~= pre);
+            }
+//@after "match buffer_flush_or_return__fn(" 1
+            proof {
+                lemma_streams_empty(&self.stdout_color, self.buffer@);
+                assert(self.stdout_color.cview() == cv0 + base + paint(pre, c_def));
+            }
+//@before "if line_first"
+            proof { lemma_streams_empty(&self.stdout_color, self.buffer@); assert(self.stdout_color.cur() == c_sys); }
+//@before "match setcolor_or_return__fn(&mut self.stdout_color, &mut self.buffer, &self.color_spec_default" 2
+    proof {
+        assert(syslinep.lines@.take(syslinep.lines@.len() as int) =~= syslinep.lines@);
+        lemma_streams_empty(&self.stdout_color, self.buffer@);
+    }
+//@before "black_box(&stdout_lock);"
+    proof { lemma_streams_empty(&self.stdout_color, self.buffer@); }
+//@end
+
+//@cut fn path=src/printer/printers.rs impl=PrinterLogMessage name=print_sysline_prependfile_prependdate_color ret=r rlimit=200
+//@desugar_for 1 it
+//@spec
+    requires
+        old(self).buffer@.len() == 0,
+        old(self).col_ok(),
+        syslinep.dt_beg <= syslinep.dt_end,
+        parts_nonempty(syslinep.lines@),
+        old(self).prepend_file is Some,
+        lines_payload(old(self).sys_prefix(syslinep, true, true), syslinep.lines@).len() <= usize::MAX,
+        total_parts(syslinep.lines@) * 15 + 16 < usize::MAX,
+    ensures
+        final(self).same_config(old(self)), final(self).same_colors(old(self)),
+        r is Ok ==> final(self).buffer@.len() == 0 && final(self).col_ok() && final(self).stdout_color.cur() == cid(old(self).color_spec_default),
+        // C13: the payload bytes are those of the non-colour variant; per line [file][date] in the default colour, then the
+        // line with (first line only) its datetime range highlighted -- a function of the message, not of block boundaries (C12)
+        r is Ok ==> final(self).stdout_color.cview() == old(self).stdout_color.cview()
+            + clines((old(self).pf() + dt_text(old(self).prepend_date_format.bytes(), syslinep.dt)), cid(old(self).color_spec_default), syslinep.lines@, syslinep.dt_beg as int, syslinep.dt_end as int,
+                     cid(old(self).color_spec_sysline), cid(old(self).color_spec_datetime), cid(old(self).color_spec_sysline)),
+        // C19: the count returned is the number of payload bytes written
+        r is Ok ==> r->Ok_0.0 as int == lines_payload(old(self).sys_prefix(syslinep, true, true), syslinep.lines@).len(),
+//@at_entry
+    let ghost cv0 = self.stdout_color.cview();
+    let ghost c_def = cid(self.color_spec_default);
+    let ghost c_sys = cid(self.color_spec_sysline);
+    let ghost c_dt = cid(self.color_spec_datetime);
+    let ghost dtb_i = syslinep.dt_beg as int;
+    let ghost dte_i = syslinep.dt_end as int;
+    let ghost self0 = *self;
+    proof { lemma_streams_empty(&self.stdout_color, self.buffer@); }
+    let ghost c_cont = c_sys;
+//@before "let mut it = vstd"
+    let ghost pre = (self.pf() + dt_text(self.prepend_date_format.bytes(), syslinep.dt));
+    proof { lemma_streams_empty(&self.stdout_color, self.buffer@); assert(syslinep.lines@.take(0) =~= Seq::<LineP>::empty()); assert(cv0 + Seq::<(u8, int)>::empty() =~= cv0); }
+//@loop 1
+            invariant_except_break
+                vstd::std_specs::iter::IteratorSpec::decrease(&it.iter) is Some,
+            invariant
+                it.snapshot@ == it__snap0, it.wf(),
+                it.seq().len() == syslinep.lines@.len(),
+                forall|i: int| 0 <= i < syslinep.lines@.len() ==> *it.seq()[i] == syslinep.lines@[i],
+                0 <= it.index@ <= it.seq().len(),
+                parts_nonempty(syslinep.lines@), syslinep.dt_beg <= syslinep.dt_end, dtb_i == syslinep.dt_beg as int, dte_i == syslinep.dt_end as int,
+                self.same_config(&self0), self.same_colors(&self0), self0 == *old(self),
+                c_def == cid(self.color_spec_default), c_sys == cid(self.color_spec_sysline), c_dt == cid(self.color_spec_datetime),
+                c_cont == c_sys,
+                pre == (self.pf() + dt_text(self.prepend_date_format.bytes(), syslinep.dt)),
+                dtb@ == dt_text(self.prepend_date_format.bytes(), syslinep.dt),
+                prepend_file@ == self.pf(), self.prepend_file is Some,
+                lines_payload(self.sys_prefix(syslinep, true, true), syslinep.lines@).len() <= usize::MAX, total_parts(syslinep.lines@) * 15 + 16 < usize::MAX,
+                self.col_ok(), self.buffer@.len() == 0,
+                line_first == (it.index@ == 0),
+                
+                self.stdout_color.cview() == cv0 + clines(pre, c_def, syslinep.lines@.take(it.index@ as int), dtb_i, dte_i, c_sys, c_dt, c_cont),
+                printed as int == lines_payload(self.sys_prefix(syslinep, true, true), syslinep.lines@.take(it.index@ as int)).len(),
+                flushed as int <= 15 * total_parts(syslinep.lines@.take(it.index@ as int)) + 2,
+            ensures
+                it.index@ == it.seq().len(),
+            decreases vstd::std_specs::iter::IteratorSpec::decrease(&it.iter).unwrap_or(arbitrary()),
+//@after "let mut it = vstd"
+            let ghost k = it__old.index@ as int;
+            let ghost base = clines(pre, c_def, syslinep.lines@.take(k), dtb_i, dte_i, c_sys, c_dt, c_cont);
+            proof {
+                lemma_clines_prefix(pre, c_def, syslinep.lines@, k, dtb_i, dte_i, c_sys, c_dt, c_cont);
+                lemma_lines_prefix(self.sys_prefix(syslinep, true, true), syslinep.lines@, k);
+                lemma_total_nonneg(syslinep.lines@.take(k));
+                lemma_streams_empty(&self.stdout_color, self.buffer@); lemma_paint_concat_auto();
+                assert(self.sys_prefix(syslinep, true, true) =~= pre);
+            }
+//@after "match buffer_flush_or_return__fn(" 1
+            proof {
+                lemma_streams_empty(&self.stdout_color, self.buffer@);
+                assert(self.stdout_color.cview() == cv0 + base + paint(pre, c_def));
+            }
+//@before "if line_first"
+            proof { lemma_streams_empty(&self.stdout_color, self.buffer@); assert(self.stdout_color.cur() == c_sys); }
+//@before "match setcolor_or_return__fn(&mut self.stdout_color, &mut self.buffer, &self.color_spec_default" 2
+    proof {
+        assert(syslinep.lines@.take(syslinep.lines@.len() as int) =~= syslinep.lines@);
+        lemma_streams_empty(&self.stdout_color, self.buffer@);
+    }
+//@before "black_box(&stdout_lock);"
+    proof { lemma_streams_empty(&self.stdout_color, self.buffer@); }
+//@mutate "&mut self.buffer, prepend_file," "&mut self.buffer, dtb,"
+//@end
+
+//@cut fn path=src/printer/printers.rs impl=PrinterLogMessage name=print_fixedstruct_color ret=r
+//@spec
+    requires
+        old(self).buffer@.len() == 0,
+        old(self).col_ok(),
+        old(self).fx_payload(fixedstruct, old(buffer)@.len() as int, false, false).len() <= usize::MAX,
+    ensures
+        final(self).same_config(old(self)), final(self).same_colors(old(self)),
+        r is Ok ==> final(self).buffer@.len() == 0 && final(self).col_ok() && final(self).stdout_color.cur() == cid(old(self).color_spec_default),
+        // C13: colour is pure decoration -- the payload bytes are those of the non-colour variant: [file][date] in the
+        // default colour, then the record text with its own datetime range highlighted
+        r is Ok ==> final(self).stdout_color.cview() == old(self).stdout_color.cview() + paint((Seq::<u8>::empty() + Seq::<u8>::empty()), cid(old(self).color_spec_default))
+            + paint_hl(fixedstruct.render(old(buffer)@.len() as int), fixedstruct.hl_beg(old(buffer)@.len() as int) as int, fixedstruct.hl_end(old(buffer)@.len() as int) as int,
+                       cid(old(self).color_spec_sysline), cid(old(self).color_spec_datetime)),
+        // C19: the count returned is the number of payload bytes written
+        r is Ok ==> r->Ok_0.0 as int == old(self).fx_payload(fixedstruct, old(buffer)@.len() as int, false, false).len(),
+//@at_entry
+    let ghost cv0 = self.stdout_color.cview();
+    let ghost c_def = cid(self.color_spec_default);
+    let ghost c_sys = cid(self.color_spec_sysline);
+    let ghost c_dt = cid(self.color_spec_datetime);
+    let ghost buflen = buffer@.len() as int;
+//@before "let stdout_lock = self.stdout.lock();"
+    let ghost pre = (Seq::<u8>::empty() + Seq::<u8>::empty());
+    let ghost rr = fixedstruct.render(buflen);
+    let ghost hl = paint_hl(rr, beg as int, end as int, c_sys, c_dt);
+    let ghost cv1 = cv0 + paint(pre, c_def);
+    proof {
+        lemma_streams_empty(&self.stdout_color, self.buffer@); lemma_paint_concat_auto();
+        lemma_hl_whole(cv1, Seq::<u8>::empty(), rr, beg as int, end as int, c_sys, c_dt);
+        assert(rr == buffer@.subrange(0, at as int));
+        assert(pre =~= Seq::<u8>::empty()); assert(cv1 =~= cv0);
+    }
+//@after "match buffer_flush_or_return__fn(" 1
+        proof {
+            lemma_streams_empty(&self.stdout_color, self.buffer@);
+            assert(buffer@.subrange(0, beg as int) =~= rr.subrange(0, beg as int));
+            lemma_hl_piece(cv1, Seq::<u8>::empty(), rr, 0, beg as int, c_sys, beg as int, end as int, c_sys, c_dt);
+            assert(self.stdout_color.cview() == cv1 + hl.take(beg as int));
+            assert(printed == pre.len() + beg as int);
+        }
+//@after "match buffer_flush_or_return__fn(" 2
+        proof {
+            lemma_streams_empty(&self.stdout_color, self.buffer@);
+            assert(buffer@.subrange(beg as int, end as int) =~= rr.subrange(beg as int, end as int));
+            lemma_hl_piece(cv1, Seq::<u8>::empty(), rr, beg as int, end as int, c_dt, beg as int, end as int, c_sys, c_dt);
+            assert(self.stdout_color.cview() == cv1 + hl.take(end as int));
+            assert(printed == pre.len() + end as int);
+        }
+//@after "match buffer_flush_or_return__fn(" 3
+        proof {
+            lemma_streams_empty(&self.stdout_color, self.buffer@);
+            assert(buffer@.subrange(end as int, at as int) =~= rr.subrange(end as int, at as int));
+            lemma_hl_piece(cv1, Seq::<u8>::empty(), rr, end as int, at as int, c_sys, beg as int, end as int, c_sys, c_dt);
+            assert(self.stdout_color.cview() == cv1 + hl.take(at as int));
+            assert(printed == pre.len() + at as int);
+        }
+//@before "black_box(&stdout_lock);"
+    proof {
+        lemma_streams_empty(&self.stdout_color, self.buffer@);
+        assert(self.stdout_color.cview() == cv1 + hl);
+    }
+//@end
+
+//@cut fn path=src/printer/printers.rs impl=PrinterLogMessage name=print_fixedstruct_prependdate_color ret=r rlimit=100
+//@spec
+    requires
+        old(self).buffer@.len() == 0,
+        old(self).col_ok(),
+        old(self).fx_payload(fixedstruct, old(buffer)@.len() as int, false, true).len() <= usize::MAX,
+    ensures
+        final(self).same_config(old(self)), final(self).same_colors(old(self)),
+        r is Ok ==> final(self).buffer@.len() == 0 && final(self).col_ok() && final(self).stdout_color.cur() == cid(old(self).color_spec_default),
+        // C13: colour is pure decoration -- the payload bytes are those of the non-colour variant: [file][date] in the
+        // default colour, then the record text with its own datetime range highlighted
+        r is Ok ==> final(self).stdout_color.cview() == old(self).stdout_color.cview() + paint((Seq::<u8>::empty() + dt_text(old(self).prepend_date_format.bytes(), fixedstruct.dt_spec())), cid(old(self).color_spec_default))
+            + paint_hl(fixedstruct.render(old(buffer)@.len() as int), fixedstruct.hl_beg(old(buffer)@.len() as int) as int, fixedstruct.hl_end(old(buffer)@.len() as int) as int,
+                       cid(old(self).color_spec_sysline), cid(old(self).color_spec_datetime)),
+        // C19: the count returned is the number of payload bytes written
+        r is Ok ==> r->Ok_0.0 as int == old(self).fx_payload(fixedstruct, old(buffer)@.len() as int, false, true).len(),
+//@at_entry
+    let ghost cv0 = self.stdout_color.cview();
+    let ghost c_def = cid(self.color_spec_default);
+    let ghost c_sys = cid(self.color_spec_sysline);
+    let ghost c_dt = cid(self.color_spec_datetime);
+    let ghost buflen = buffer@.len() as int;
+//@before "let stdout_lock = self.stdout.lock();"
+    let ghost pre = (Seq::<u8>::empty() + dt_text(self.prepend_date_format.bytes(), fixedstruct.dt_spec()));
+    let ghost rr = fixedstruct.render(buflen);
+    let ghost hl = paint_hl(rr, beg as int, end as int, c_sys, c_dt);
+    let ghost cv1 = cv0 + paint(pre, c_def);
+    proof {
+        lemma_streams_empty(&self.stdout_color, self.buffer@); lemma_paint_concat_auto();
+        lemma_hl_whole(cv1, Seq::<u8>::empty(), rr, beg as int, end as int, c_sys, c_dt);
+        assert(rr == buffer@.subrange(0, at as int));
+        
+    }
+//@after "match buffer_flush_or_return__fn(" 1
+        proof {
+            lemma_streams_empty(&self.stdout_color, self.buffer@); lemma_paint_concat_auto();
+            assert(self.stdout_color.cview() == cv0 + paint(pre, c_def));
+            assert(printed == pre.len());
+        }
+//@after "match buffer_flush_or_return__fn(" 2
+        proof {
+            lemma_streams_empty(&self.stdout_color, self.buffer@);
+            assert(buffer@.subrange(0, beg as int) =~= rr.subrange(0, beg as int));
+            lemma_hl_piece(cv1, Seq::<u8>::empty(), rr, 0, beg as int, c_sys, beg as int, end as int, c_sys, c_dt);
+            assert(self.stdout_color.cview() == cv1 + hl.take(beg as int));
+            assert(printed == pre.len() + beg as int);
+        }
+//@after "match buffer_flush_or_return__fn(" 3
+        proof {
+            lemma_streams_empty(&self.stdout_color, self.buffer@);
+            assert(buffer@.subrange(beg as int, end as int) =~= rr.subrange(beg as int, end as int));
+            lemma_hl_piece(cv1, Seq::<u8>::empty(), rr, beg as int, end as int, c_dt, beg as int, end as int, c_sys, c_dt);
+            assert(self.stdout_color.cview() == cv1 + hl.take(end as int));
+            assert(printed == pre.len() + end as int);
+        }
+//@after "match buffer_flush_or_return__fn(" 4
+        proof {
+            lemma_streams_empty(&self.stdout_color, self.buffer@);
+            assert(buffer@.subrange(end as int, at as int) =~= rr.subrange(end as int, at as int));
+            lemma_hl_piece(cv1, Seq::<u8>::empty(), rr, end as int, at as int, c_sys, beg as int, end as int, c_sys, c_dt);
+            assert(self.stdout_color.cview() == cv1 + hl.take(at as int));
+            assert(printed == pre.len() + at as int);
+        }
+//@before "black_box(&stdout_lock);"
+    proof {
+        lemma_streams_empty(&self.stdout_color, self.buffer@);
+        assert(self.stdout_color.cview() == cv1 + hl);
+    }
+//@end
+
+//@cut fn path=src/printer/printers.rs impl=PrinterLogMessage name=print_fixedstruct_prependfile_color ret=r rlimit=100
+//@spec
+    requires
+        old(self).buffer@.len() == 0,
+        old(self).col_ok(),
+        old(self).prepend_file is Some,
+        old(self).fx_payload(fixedstruct, old(buffer)@.len() as int, true, false).len() <= usize::MAX,
+    ensures
+        final(self).same_config(old(self)), final(self).same_colors(old(self)),
+        r is Ok ==> final(self).buffer@.len() == 0 && final(self).col_ok() && final(self).stdout_color.cur() == cid(old(self).color_spec_default),
+        // C13: colour is pure decoration -- the payload bytes are those of the non-colour variant: [file][date] in the
+        // default colour, then the record text with its own datetime range highlighted
+        r is Ok ==> final(self).stdout_color.cview() == old(self).stdout_color.cview() + paint((old(self).pf() + Seq::<u8>::empty()), cid(old(self).color_spec_default))
+            + paint_hl(fixedstruct.render(old(buffer)@.len() as int), fixedstruct.hl_beg(old(buffer)@.len() as int) as int, fixedstruct.hl_end(old(buffer)@.len() as int) as int,
+                       cid(old(self).color_spec_sysline), cid(old(self).color_spec_datetime)),
+        // C19: the count returned is the number of payload bytes written
+        r is Ok ==> r->Ok_0.0 as int == old(self).fx_payload(fixedstruct, old(buffer)@.len() as int, true, false).len(),
+//@at_entry
+    let ghost cv0 = self.stdout_color.cview();
+    let ghost c_def = cid(self.color_spec_default);
+    let ghost c_sys = cid(self.color_spec_sysline);
+    let ghost c_dt = cid(self.color_spec_datetime);
+    let ghost buflen = buffer@.len() as int;
+//@before "let stdout_lock = self.stdout.lock();"
+    let ghost pre = (self.pf() + Seq::<u8>::empty());
+    let ghost rr = fixedstruct.render(buflen);
+    let ghost hl = paint_hl(rr, beg as int, end as int, c_sys, c_dt);
+    let ghost cv1 = cv0 + paint(pre, c_def);
+    proof {
+        lemma_streams_empty(&self.stdout_color, self.buffer@); lemma_paint_concat_auto();
+        lemma_hl_whole(cv1, Seq::<u8>::empty(), rr, beg as int, end as int, c_sys, c_dt);
+        assert(rr == buffer@.subrange(0, at as int));
+        
+    }
+//@after "match buffer_flush_or_return__fn(" 1
+        proof {
+            lemma_streams_empty(&self.stdout_color, self.buffer@); lemma_paint_concat_auto();
+            assert(self.stdout_color.cview() == cv0 + paint(pre, c_def));
+            assert(printed == pre.len());
+        }
+//@after "match buffer_flush_or_return__fn(" 2
+        proof {
+            lemma_streams_empty(&self.stdout_color, self.buffer@);
+            assert(buffer@.subrange(0, beg as int) =~= rr.subrange(0, beg as int));
+            lemma_hl_piece(cv1, Seq::<u8>::empty(), rr, 0, beg as int, c_sys, beg as int, end as int, c_sys, c_dt);
+            assert(self.stdout_color.cview() == cv1 + hl.take(beg as int));
+            assert(printed == pre.len() + beg as int);
+        }
+//@after "match buffer_flush_or_return__fn(" 3
+        proof {
+            lemma_streams_empty(&self.stdout_color, self.buffer@);
+            assert(buffer@.subrange(beg as int, end as int) =~= rr.subrange(beg as int, end as int));
+            lemma_hl_piece(cv1, Seq::<u8>::empty(), rr, beg as int, end as int, c_dt, beg as int, end as int, c_sys, c_dt);
+            assert(self.stdout_color.cview() == cv1 + hl.take(end as int));
+            assert(printed == pre.len() + end as int);
+        }
+//@after "match buffer_flush_or_return__fn(" 4
+        proof {
+            lemma_streams_empty(&self.stdout_color, self.buffer@);
+            assert(buffer@.subrange(end as int, at as int) =~= rr.subrange(end as int, at as int));
+            lemma_hl_piece(cv1, Seq::<u8>::empty(), rr, end as int, at as int, c_sys, beg as int, end as int, c_sys, c_dt);
+            assert(self.stdout_color.cview() == cv1 + hl.take(at as int));
+            assert(printed == pre.len() + at as int);
+        }
+//@before "black_box(&stdout_lock);"
+    proof {
+        lemma_streams_empty(&self.stdout_color, self.buffer@);
+        assert(self.stdout_color.cview() == cv1 + hl);
+    }
+//@end
+
+//@cut fn path=src/printer/printers.rs impl=PrinterLogMessage name=print_fixedstruct_prependfile_prependdate_color ret=r rlimit=100
+//@spec
+    requires
+        old(self).buffer@.len() == 0,
+        old(self).col_ok(),
+        old(self).prepend_file is Some,
+        old(self).fx_payload(fixedstruct, old(buffer)@.len() as int, true, true).len() <= usize::MAX,
+    ensures
+        final(self).same_config(old(self)), final(self).same_colors(old(self)),
+        r is Ok ==> final(self).buffer@.len() == 0 && final(self).col_ok() && final(self).stdout_color.cur() == cid(old(self).color_spec_default),
+        // C13: colour is pure decoration -- the payload bytes are those of the non-colour variant: [file][date] in the
+        // default colour, then the record text with its own datetime range highlighted
+        r is Ok ==> final(self).stdout_color.cview() == old(self).stdout_color.cview() + paint((old(self).pf() + dt_text(old(self).prepend_date_format.bytes(), fixedstruct.dt_spec())), cid(old(self).color_spec_default))
+            + paint_hl(fixedstruct.render(old(buffer)@.len() as int), fixedstruct.hl_beg(old(buffer)@.len() as int) as int, fixedstruct.hl_end(old(buffer)@.len() as int) as int,
+                       cid(old(self).color_spec_sysline), cid(old(self).color_spec_datetime)),
+        // C19: the count returned is the number of payload bytes written
+        r is Ok ==> r->Ok_0.0 as int == old(self).fx_payload(fixedstruct, old(buffer)@.len() as int, true, true).len(),
+//@at_entry
+    let ghost cv0 = self.stdout_color.cview();
+    let ghost c_def = cid(self.color_spec_default);
+    let ghost c_sys = cid(self.color_spec_sysline);
+    let ghost c_dt = cid(self.color_spec_datetime);
+    let ghost buflen = buffer@.len() as int;
+//@before "let stdout_lock = self.stdout.lock();"
+    let ghost pre = (self.pf() + dt_text(self.prepend_date_format.bytes(), fixedstruct.dt_spec()));
+    let ghost rr = fixedstruct.render(buflen);
+    let ghost hl = paint_hl(rr, beg as int, end as int, c_sys, c_dt);
+    let ghost cv1 = cv0 + paint(pre, c_def);
+    proof {
+        lemma_streams_empty(&self.stdout_color, self.buffer@); lemma_paint_concat_auto();
+        lemma_hl_whole(cv1, Seq::<u8>::empty(), rr, beg as int, end as int, c_sys, c_dt);
+        assert(rr == buffer@.subrange(0, at as int));
+        
+    }
+//@after "match buffer_flush_or_return__fn(" 1
+        proof {
+            lemma_streams_empty(&self.stdout_color, self.buffer@); lemma_paint_concat_auto();
+            assert(self.stdout_color.cview() == cv0 + paint(pre, c_def));
+            assert(printed == pre.len());
+        }
+//@after "match buffer_flush_or_return__fn(" 2
+        proof {
+            lemma_streams_empty(&self.stdout_color, self.buffer@);
+            assert(buffer@.subrange(0, beg as int) =~= rr.subrange(0, beg as int));
+            lemma_hl_piece(cv1, Seq::<u8>::empty(), rr, 0, beg as int, c_sys, beg as int, end as int, c_sys, c_dt);
+            assert(self.stdout_color.cview() == cv1 + hl.take(beg as int));
+            assert(printed == pre.len() + beg as int);
+        }
+//@after "match buffer_flush_or_return__fn(" 3
+        proof {
+            lemma_streams_empty(&self.stdout_color, self.buffer@);
+            assert(buffer@.subrange(beg as int, end as int) =~= rr.subrange(beg as int, end as int));
+            lemma_hl_piece(cv1, Seq::<u8>::empty(), rr, beg as int, end as int, c_dt, beg as int, end as int, c_sys, c_dt);
+            assert(self.stdout_color.cview() == cv1 + hl.take(end as int));
+            assert(printed == pre.len() + end as int);
+        }
+//@after "match buffer_flush_or_return__fn(" 4
+        proof {
+            lemma_streams_empty(&self.stdout_color, self.buffer@);
+            assert(buffer@.subrange(end as int, at as int) =~= rr.subrange(end as int, at as int));
+            lemma_hl_piece(cv1, Seq::<u8>::empty(), rr, end as int, at as int, c_sys, beg as int, end as int, c_sys, c_dt);
+            assert(self.stdout_color.cview() == cv1 + hl.take(at as int));
+            assert(printed == pre.len() + at as int);
+        }
+//@before "black_box(&stdout_lock);"
+    proof {
+        lemma_streams_empty(&self.stdout_color, self.buffer@);
+        assert(self.stdout_color.cview() == cv1 + hl);
+    }
+//@end
 
 //@cut fn path=src/printer/printers.rs impl=PrinterLogMessage name=print_sysline ret=r
 //@spec
     requires
         old(self).config_ok(),
         lines_payload(old(self).sys_prefix(syslinep, old(self).do_prepend_file, old(self).do_prepend_date), syslinep.lines@).len() <= usize::MAX,
-        total_parts(syslinep.lines@) * 2 + 4 < usize::MAX,
+        total_parts(syslinep.lines@) * 15 + 16 < usize::MAX,
+        syslinep.dt_beg <= syslinep.dt_end, parts_nonempty(syslinep.lines@),
     ensures
         final(self).same_config(old(self)),
         r is Ok ==> final(self).config_ok(),
